@@ -710,8 +710,19 @@ start:
 			ops = instr.Operands(ops[:0])
 			for _, pop := range ops {
 				if op, ok := (*pop).(*ir.Const); ok && typeutil.IsPointerLike(op.Type()) {
-					// The only constant pointer-like is nil.
-					entrys.set(op, ValueNilness{Inner: AlwaysNil, Outer: AlwaysNil})
+					switch {
+					case op.Value == nil:
+						entrys.set(op, ValueNilness{Inner: AlwaysNil, Outer: AlwaysNil})
+					case op.Value.Kind() == constant.Int && constant.Sign(op.Value) != 0:
+						// A non-zero integer constant converted to
+						// unsafe.Pointer, as in unsafe.Pointer(uintptr(8)).
+						entrys.set(op, ValueNilness{Inner: MaybeNil, Outer: NeverNil})
+					case op.Value.Kind() == constant.Int:
+						// unsafe.Pointer(uintptr(0)) is nil.
+						entrys.set(op, ValueNilness{Inner: MaybeNil, Outer: AlwaysNil})
+					default:
+						entrys.set(op, ValueNilness{Inner: MaybeNil, Outer: MaybeNil})
+					}
 				}
 			}
 		}
